@@ -78,6 +78,12 @@ CONF_CYCLE = {
     'main.conf': ['ka 1', '%include a.conf'],
     'a.conf': ['kb 2', '%include main.conf'],
 }
+# resources whose names end like compressed files (they are ordinary texts: a name says nothing about content)
+CONF_GZ = {
+    'main.conf': ['ka 1', '%include part.conf.gz', 'kb 2', '%include sub/OLD.GZ', 'kb 3'],
+    'part.conf.gz': ['kb 7'],
+    'sub/OLD.GZ': ['kb 8', '%include ../part.conf.gz'],
+}
 CONF_PKG2 = {
     'main.conf': ['ka 1', '%include package:vfc19ns:frag.conf'],
 }
@@ -112,7 +118,7 @@ def workdir():
             open(os.path.join(d, pk, 'frag.conf'), 'w').write('kb 7\n')
         import sys
         sys.path.insert(0, d)
-        for sub, files in (('c1', CONF), ('c2', CONF_IMPORT), ('c3', CONF_PKG), ('c4', CONF_PKG2), ('c7', CONF_DATA), ('c8', CONF_CYCLE)):
+        for sub, files in (('c1', CONF), ('c2', CONF_IMPORT), ('c3', CONF_PKG), ('c4', CONF_PKG2), ('c7', CONF_DATA), ('c8', CONF_CYCLE), ('c9', CONF_GZ)):
             for name, lines in files.items():
                 p = os.path.join(d, sub, name)
                 os.makedirs(os.path.dirname(p), exist_ok=True)
@@ -265,7 +271,7 @@ class C19(Harness):
 
     def units(self, tier):
         us = []
-        for scen in ('schema', 'c1', 'c2', 'c1-file', 'stringio', 'schema-twice', 'c3', 'c4', 'c1-twice', 'c5-twice', 'c6-sameschema', 'c7', 'c8'):
+        for scen in ('schema', 'c1', 'c2', 'c1-file', 'stringio', 'schema-twice', 'c3', 'c4', 'c1-twice', 'c5-twice', 'c6-sameschema', 'c7', 'c8', 'c9'):
             for kind in ('none', 'read', 'open', 'stream', 'datatype', 'section'):
                 us.append({'scenario': scen, 'kind': kind})
         return us
@@ -393,7 +399,7 @@ class C19(Harness):
                 else:
                     # the schema itself is loaded inside the tracked region as well
                     schema = ZConfig.loadSchema(os.path.join(d, 'schema.xml'))
-                    sub = scen if scen in ('c2', 'c3', 'c4', 'c7', 'c8') else 'c1'
+                    sub = scen if scen in ('c2', 'c3', 'c4', 'c7', 'c8', 'c9') else 'c1'
                     path = os.path.join(d, sub, 'main.conf')
                     if scen == 'stringio':
                         ZConfig.loadConfigFile(schema, io.StringIO('ka 1\nkb 2\n<ta>\n</ta>\n'))
